@@ -105,6 +105,7 @@ func init() {
 	reg("lowleaf", Leaf, 1, ix(0), nil, false, 1)
 	reg("asleaf", Leaf, 1, ix(0), nil, false, 1)
 	reg("fmtargleaf", Leaf, 2, ix(0, 1), nil, false, 1)   // FormatError prints an error VALUE as a format argument
+	reg("protofailleaf", Leaf, 1, ix(0), nil, false, 1) // announces a protobuf payload that cannot be marshalled
 	reg("hdleaf", Leaf, 3, ix(0, 1, 2), nil, false, 1)    // third-party leaf with its own hint and detail
 	reg("stacksafeleaf", Leaf, 2, ix(0), ix(1), false, 0) // weight 0: only placed explicitly (C12, C15); an unregistered type loses its stack in transfer
 	// library wrappers
@@ -338,6 +339,8 @@ func Build1(n *Node, m Built) error {
 		return NCLeaf{Msg: S[0], X: []int{1}}
 	case "fmtargleaf":
 		return &FmtArgLeaf{S[0], goErr.New(S[1])}
+	case "protofailleaf":
+		return &ProtoFailLeaf{S[0]}
 	case "hdleaf":
 		return &HDLeaf{S[0], S[1], S[2]}
 	case "isleaf":
